@@ -13,6 +13,20 @@ reply header/addressing)  <->  the real listeners on loopback (harness/c09).
  4. code -> spec: ListenerTrace.tla, monitor (= the property section on the
     recorded events; decides) then strict (= the pipeline's prediction; DRIFT).
 
+The reply is a function of the datagram AND of the circumstances of its
+arrival; Listener.tla carries them as state (sections 3a, 3b) and the
+environment enumerates them:
+  * how the listener was started (conf): "sw" without an interface name,
+    "hw" with one (hardware timestamping on an interface that has none: no
+    receive-timestamp control message, no transmit timestamp);
+  * the class the server's timestamp store is in when the request arrives
+    (store): client unknown / known with k exchanges / request referring to an
+    exchange on record / store full with the oldest item evictable or not.
+TLC combines them with the key datagrams; the driver brings each about on the
+real listeners (second listener pair started with the loopback interface's
+name; store put into the class through the `verif` hooks and inspected) and
+the same monitors judge the records.
+
 VERIF_C09_CORRUPT=<kind> corrupts one recorded field before validation
 (negative control of the binding): drop_reply | dup_reply | reply_mode |
 reply_stratum | swap_path | pair_count.
@@ -45,20 +59,22 @@ def _sig(inv, r):
         return "C09 %s ?" % inv
     if r["k"] == "pair":
         return "C09 %s pair %s" % (inv, r["tp"])
-    if r["k"] == "stage":
-        return "C09 %s stage %s" % (inv, r["stage"])
+    if r["k"] in ("stage", "anc"):
+        return "C09 %s %s %s%s" % (inv, r["k"], r["stage"], "" if r.get("conf", "sw") == "sw" else " listener=" + r["conf"])
     b = r["b0"]
     ln = r["len"]
     lc = "<48" if ln < 48 else "48" if ln == 48 else ">48"
+    # the circumstances of arrival, when they are not the plain ones
+    env = ("" if r["conf"] == "sw" else " listener=" + r["conf"]) + ("" if r["store"] == "asis" else " store=" + r["store"])
     if r["n"] == 0 and inv in ("ToSender", "ReplyHeader", "MRawReverse"):
         # only the sentinel's reply can be meant
-        return "C09 %s sentinel-reply %s%s" % (inv, r["tp"], (" hosts=%s>%s" % (r["sc"]["st"], r["sc"]["dt"])) if r["tp"] == "scion" else "")
+        return "C09 %s sentinel-reply %s%s%s" % (inv, r["tp"], (" hosts=%s>%s" % (r["sc"]["st"], r["sc"]["dt"])) if r["tp"] == "scion" else "", env)
     if r["sn"] != 1 and r["n"] == r["exp"] and not inv.startswith("S"):
         # the case itself was handled as the statement demands; the well-formed
         # request that followed it on the same listener socket got no reply
-        return "C09 %s sentinel-after %s len%s tr=%s" % (inv, r["tp"], lc, r["tr"])
+        return "C09 %s sentinel-after %s len%s tr=%s%s" % (inv, r["tp"], lc, r["tr"], env)
     fam = (" hosts=%s>%s" % (r["sc"]["st"], r["sc"]["dt"])) if r["tp"] == "scion" and r["sc"]["st"] + r["sc"]["dt"] != "v4v4" else ""
-    return "C09 %s %s%s len%s tr=%s li=%d vn=%d mode=%d" % (inv, r["tp"], fam, lc, r["tr"], b >> 6, (b >> 3) & 7, b & 7)
+    return "C09 %s %s%s len%s tr=%s li=%d vn=%d mode=%d%s" % (inv, r["tp"], fam, lc, r["tr"], b >> 6, (b >> 3) & 7, b & 7, env)
 
 
 def _corrupt(recs, kind):
@@ -85,6 +101,12 @@ def _corrupt(recs, kind):
     raise vlib.Inconclusive("corruption %s not applicable" % kind)
 
 
+# store classes the environment of Listener_gen.cfg / Listener_gendeep.cfg brings
+# about (ListenerMC!StoresQuick, Listener!StoreClassNames) and what they mean
+STORES_Q = ["new", "k1", "k7", "k8", "il1", "il8", "full_evict", "full_stuck", "full_k3"]
+STORES_T = ["new"] + ["k%d" % i for i in range(1, 9)] + ["il%d" % i for i in range(1, 9)] + ["full_evict", "full_stuck", "full_k3"]
+
+
 def run(ctx):
     q = ctx.quick
     ctx.specdir()
@@ -101,6 +123,9 @@ def run(ctx):
     jobs += [lambda: ctx.tlc("ListenerMC", "Listener_hist.cfg", workers=2, timeout=600),
              lambda: ctx.tlc("ListenerMC", "Listener_f_stalebuf.cfg", workers=2, timeout=600, allow_violation=True,
                              tag="f_stalebuf")]
+    # histories of two datagrams under every circumstance of arrival (listener
+    # configuration x store class x ancillary data), the store evolving in between
+    jobs += [lambda: ctx.tlc("ListenerMC", "Listener_env.cfg", workers=2, timeout=600)]
     if not q:
         jobs += [lambda: ctx.tlc("ListenerMC", "Listener_deep.cfg", workers=3, timeout=900),
                  lambda: ctx.tlc("ListenerMC", "Listener_pairdeep.cfg", workers=3, timeout=900)]
@@ -113,6 +138,33 @@ def run(ctx):
     pairs = ctx.emitted(res[3]["out"])
     if len(cases) < 30000 or len(pairs) < 300 or {c["fam"] for c in cases} != {"44", "46", "64", "66"}:
         raise vlib.Inconclusive("case generator produced only %d cases / %d pair cases" % (len(cases), len(pairs)))
+    # vacuity self-check on the circumstances of arrival (judged on what the
+    # SPECIFICATION generated): every listener configuration x store class must
+    # come with requests the model answers and with datagrams it drops, on both
+    # transports; the classes must mean what this check reports about them
+    stores = STORES_Q if q else STORES_T
+    envgen = {}
+    for c in cases:
+        e = envgen.setdefault((c["conf"], c["store"]), {"ip": [0, 0], "scion": [0, 0]})
+        e[c["tp"]][0 if c["exp"] else 1] += 1
+    for conf in ("sw", "hw"):
+        for st in ["asis"] + stores:
+            e = envgen.get((conf, st))
+            if not e or min(e["ip"] + e["scion"]) < 4:
+                raise vlib.Inconclusive("generated cases do not exercise listener=%s store=%s on both transports with "
+                                        "answered and dropped datagrams: %s" % (conf, st, e))
+    if set(st for _, st in envgen) != set(["asis"] + stores):
+        raise vlib.Inconclusive("unexpected store classes generated: %s" % sorted(set(st for _, st in envgen)))
+    clsdef = {c["store"]: c["cls"] for c in cases}
+    if (clsdef["full_stuck"] != {"k": 0, "il": False, "full": True, "fill": "fresh"}
+            or clsdef["full_evict"] != {"k": 0, "il": False, "full": True, "fill": "old"}
+            or clsdef["il8"] != {"k": 8, "il": True, "full": False, "fill": "none"}
+            or any(c["anc"] != ("none" if c["conf"] == "hw" else "ts") for c in cases)
+            or not any(c["org"] == "rx" for c in cases)):
+        raise vlib.Inconclusive("store classes / ancillary data of the generated cases are not what Listener.tla defines")
+    n_env = sum(1 for c in cases if c["store"] != "asis" or c["conf"] != "sw")
+    n_store = sum(1 for c in cases if c["store"] != "asis")
+    n_hw = sum(1 for c in cases if c["conf"] == "hw")
     # vacuity self-check: every stage of the pipeline at which the model drops a
     # datagram, and acceptance, must occur among the generated cases on both transports
     stages = {"none", "ntp.DecodePacket", "nts.DecodePacket:errNoUniqueID", "nts.DecodePacket:errNoAuthenticator",
@@ -136,6 +188,8 @@ def run(ctx):
     ctx.log("driver: %d case records (%d cases), %d pair records (%d pair cases)" % (ncase, len(cases), npair, len(pairs)))
     if not recs:
         raise vlib.Inconclusive("driver recorded nothing:\n" + out[-2000:])
+    anc_recs = [r for r in recs if r["k"] == "anc"]
+    obs = [r for r in obs if r["k"] != "anc"]
     retried = sum(1 for r in recs if r["k"] == "case" and r["tries"] > 1)
     if retried:
         ctx.notes.append("%d cases needed more than one attempt (sentinel reply not seen within 2 s)" % retried)
@@ -148,9 +202,38 @@ def run(ctx):
     complete = all(r["sn"] == 1 for r in recs if r["k"] == "case")
     calm = all(r["arecv"] + r["brecv"] <= 2 for r in recs if r["k"] == "pair")
     reps = 1 if q else 2
-    if (complete and ncase < reps * len(cases) + 2) or (complete and calm and npair < len(pairs)):
+    want = reps * (len(cases) - n_store) + n_store + 4    # + preflight requests
+    if (complete and ncase < want) or (complete and calm and npair < len(pairs)):
         raise vlib.Inconclusive("driver stopped early without an observation that explains it (%d/%d, %d/%d)"
-                                % (ncase, len(cases), npair, len(pairs)))
+                                % (ncase, want, npair, len(pairs)))
+    # the circumstances on the implementation side: did the driver bring them about?
+    envobs = {}
+    for r in recs:
+        if r["k"] == "case" and r["obs"]:
+            e = envobs.setdefault((r["conf"], r["store"]), [0, 0, 0])
+            e[0] += 1
+            e[1] += r["pre"] == {k: clsdef[r["store"]][k] for k in ("k", "full", "fill")}
+            e[2] += r["post_k"] >= 0
+    hw_anc = [r for r in anc_recs if r["conf"] == "hw"]
+    sw_anc = [r for r in anc_recs if r["conf"] == "sw"]
+    if complete:
+        for conf in ("sw", "hw"):
+            for st in stores:
+                e = envobs.get((conf, st), [0, 0, 0])
+                if e[1] == 0:
+                    raise vlib.Inconclusive("the driver could not put the timestamp store into class %s (listener=%s): "
+                                            "%d records, none inspected in that class" % (st, conf, e[0]))
+        if not hw_anc or hw_anc[0]["logged"] == 0:
+            raise vlib.Inconclusive("the listeners started with an interface name never missed a receive timestamp here: "
+                                    "the ancillary-data class 'none' was not exercised (%s)" % hw_anc)
+    if sw_anc and sw_anc[0]["logged"]:
+        ctx.notes.append("the kernel omitted the receive timestamp of %d of %d datagrams sent to the listeners started "
+                         "without an interface name" % (sw_anc[0]["logged"], sw_anc[0]["sent"]))
+    unobs = sum(e[0] - e[2] for e in envobs.values())
+    if unobs:
+        ctx.notes.append("%d store-class records without post-state (updateTXTimestamp not seen within 100 ms)" % unobs)
+    ctx.log("circumstances: %d generated cases with a store class, %d addressed to listeners started with an interface name; "
+            "%d records inspected in their class" % (n_store, n_hw, sum(e[1] for e in envobs.values())))
 
     # 4: monitor decides; strict reports drift. A violation ends a TLC run, so the
     # records with the same structural signature are set aside and the rest is
@@ -199,7 +282,8 @@ def run(ctx):
     valid = [r for r in recs if r["k"] == "case" and r["n"] > 0]
     ctx.cov.update(
         evaluations=len(recs),
-        distinct_nontrivial=len({(r["k"], r["tp"], r["b0"], r["len"], r["tr"], r["pk"], r.get("fam", ""), r["src"]["h"]) for r in obs}),
+        distinct_nontrivial=len({(r["k"], r["tp"], r["b0"], r["len"], r["tr"], r["pk"], r.get("fam", ""), r["src"]["h"],
+                                  r.get("conf", ""), r.get("store", "")) for r in obs}),
         rule="every first payload byte 0..255 x {0,1,47,48,49,75,76,1024,2048 and each trailer class's natural length} "
              "x 18 trailer classes (none, <28 bytes, unknown fields, uid only, no uid, no cookie, valid NTS, valid NTS with "
              "placeholders, bad tag, wrong key, altered header, unknown cookie key, altered cookie, data after authenticator, "
@@ -208,15 +292,46 @@ def run(ctx):
              "address types {v4>v4, v6>v6, v4>v6, v6>v4} (%s); each case is followed on the same socket by a well-formed "
              "48- or 252-byte request (two-datagram history per record); plus forged-source datagrams between two servers "
              "(%s first bytes x 3 shapes x {IP, SCION} x 2 directions); "
-             "distinct = distinct (kind, transport, first byte, length, trailer class, path kind, address types, source host)"
+             "circumstances of arrival: listener started without / with an interface name (receive-timestamp control "
+             "message present / absent, transmit timestamp read / lost) x store class {left as is, %s} (client unknown, "
+             "known with k exchanges, request referring to an exchange on record, 2^20 items with the oldest evictable / "
+             "not evictable / client known) x %s first bytes x {47, 48, valid NTS 252, unauthentic NTS 252} x {IP, SCION}%s; "
+             "distinct = distinct (kind, transport, first byte, length, trailer class, path kind, address types, source "
+             "host, listener configuration, store class)"
              % ("non-empty paths and non-v4 hosts with 27 key first bytes" if q else "non-v4 hosts with 27 key first bytes",
-                "27 key" if q else "all 256"),
+                "27 key" if q else "all 256", ", ".join(stores), "12 key" if q else "27 key",
+                "" if q else "; listener started with an interface name x all 256 first bytes"),
         traces_validated_against_impl=nval, exhaustive=True,
         replies_observed=len(valid),
         records_per_predicted_stage={st: sum(1 for r in obs if r["drop"] == st) for st in sorted(stages)},
-        stage_log_counts={r["stage"]: [r["logged"], r["predicted"]] for r in stage_recs},
+        stage_log_counts={r["stage"] + ("" if r["conf"] == "sw" else " listener=" + r["conf"]): [r["logged"], r["predicted"]]
+                          for r in stage_recs},
+        generated_cases_per_listener_and_store={
+            "%s/%s" % k: {"answered_by_model": v["ip"][0] + v["scion"][0], "dropped_by_model": v["ip"][1] + v["scion"][1]}
+            for k, v in sorted(envgen.items())},
+        records_in_store_class={"%s/%s" % k: {"records": v[0], "inspected_in_class": v[1], "post_state_seen": v[2]}
+                                for k, v in sorted(envobs.items())},
+        no_rx_timestamp_logged={r["conf"]: [r["logged"], r["sent"]] for r in anc_recs},
         samples=[_brief(r) for r in (valid[:2] + [r for r in recs if r["k"] == "pair"][:2] + obs[-1:])])
+    ctx.notes.append(
+        "circumstances of arrival (spec side): Listener.tla generated %d cases beyond the plain circumstances: %d with a "
+        "store class (%d classes x 2 listener configurations; %d of them with a full store, %d requests referring to an "
+        "exchange on record) and %d addressed to listeners started with an interface name; the model answers %d of them. "
+        "Implementation side: %d records were inspected in their class before the case, %d of %d datagrams reached the "
+        "interface-name listeners without a receive timestamp."
+        % (n_env, n_store, len(stores), sum(1 for c in cases if c["cls"]["full"] and c["store"] != "asis"),
+           sum(1 for c in cases if c["il"]), n_hw, sum(c["exp"] for c in cases if c["store"] != "asis" or c["conf"] != "sw"),
+           sum(e[1] for e in envobs.values()), hw_anc[0]["logged"] if hw_anc else 0, hw_anc[0]["sent"] if hw_anc else 0))
     ctx.assumptions += [
+        "listener configuration 'hw' is brought about by starting the listeners with the loopback interface's name "
+        "(localHost.Zone): hardware timestamping on an interface without hardware clock; a sporadically missing "
+        "timestamp on a listener started without an interface name is explored by TLC but cannot be forced on the "
+        "real socket; truncated control data cannot occur (oob holds udp.TimestampLen() bytes and the timestamp is the "
+        "only control message the listener's socket options enable)",
+        "a store class is brought about through the `verif` hooks of core/server (VerifHandleRequest / "
+        "VerifUpdateTXTimestamp / VerifRemove; 2^20 filler clients with receive times one hour ahead, one filler one "
+        "hour back for the evictable class) immediately before each attempt and verified by inspection under the "
+        "store's lock; classes that need a full store run on one worker",
         "a datagram counts as the listener's answer to a case iff it reaches the sending socket before the reply to the "
         "sentinel request sent from the same socket right after the case (same 4-tuple => same SO_REUSEPORT listener, FIFO on loopback)",
         "the abstraction is complete for the decisions of the pinned pipeline: bytes that no stage looks at are random per seed",
@@ -232,12 +347,14 @@ def run(ctx):
 def _brief(r):
     if r is None:
         return "?"
-    if r["k"] == "stage":
+    if r["k"] in ("stage", "anc"):
         return r
     if r["k"] == "pair":
         return {k: r[k] for k in ("k", "tp", "b0", "len", "tr", "src", "dst", "arecv", "brecv", "asrv", "bsrv", "exp")}
-    d = {k: r[k] for k in ("k", "id", "tp", "b0", "len", "tr", "pk", "n", "slen", "sn", "tries", "exp", "drop")}
-    d["out"] = [{k: o[k] for k in ("b0", "st", "len", "src", "echo", "raw_ok")} for o in r["out"]]
+    d = {k: r[k] for k in ("k", "id", "tp", "b0", "len", "tr", "pk", "n", "slen", "sn", "tries", "exp", "drop", "conf", "store")}
+    if r["obs"]:
+        d.update(pre=r["pre"], post_k=r["post_k"], il=r["il"])
+    d["out"] = [{k: o[k] for k in ("b0", "st", "len", "src", "echo", "org", "raw_ok")} for o in r["out"]]
     if r["tp"] == "scion":
         d["sc"] = r["sc"]
         for i, o in enumerate(r["out"]):
